@@ -314,6 +314,79 @@ theorem frame_bonds {s : Mol} {t : Template} {td : List Nat} {mp : List (Nat × 
   rw [bond?_eq_bget, hadj]
   exact this
 
+/-! ## `Transformer.__call__` and the choice of matches -/
+
+theorem transformerCall_cons {s : Mol} {t : Template} {td : List Nat} {mp : List (Nat × Nat)}
+    {tl : List (List (Nat × Nat))} {r : List Patched} :
+    transformerCall s t td (mp :: tl) = .ok r ↔
+      ∃ p ps, patcher s t td mp = .ok p ∧ transformerCall s t td tl = .ok ps ∧ r = p :: ps := by
+  simp only [transformerCall]
+  constructor
+  · intro h
+    split at h
+    · simp at h
+    · next p hp =>
+      split at h
+      · simp at h
+      · next ps hps =>
+        simp only [Except.ok.injEq] at h
+        exact ⟨p, ps, hp, hps, h.symm⟩
+  · rintro ⟨p, ps, hp, hps, rfl⟩
+    simp [hp, hps]
+
+/-- **one product per match**: a successful `Transformer` call returns exactly one `_patcher` result per mapping the
+matcher yielded, in the same order -/
+theorem one_product_per_match {s : Mol} {t : Template} {td : List Nat} :
+    ∀ (l : List (List (Nat × Nat))) (r : List Patched), transformerCall s t td l = .ok r →
+    r.length = l.length ∧ ∀ i (hi : i < l.length) (hr : i < r.length), patcher s t td l[i] = .ok r[i] := by
+  intro l
+  induction l with
+  | nil => intro r h; simp only [transformerCall, Except.ok.injEq] at h; subst h; simp
+  | cons mp tl ih =>
+    intro r h
+    obtain ⟨p, ps, hp, hps, rfl⟩ := transformerCall_cons.1 h
+    obtain ⟨hl, hi⟩ := ih ps hps
+    refine ⟨by simp [hl], ?_⟩
+    intro i h1 h2
+    cases i with
+    | zero => simpa using hp
+    | succ j => simpa using hi j (by simpa using h1) (by simpa using h2)
+
+/-- FULL statement about the matcher's automorphism filter — **false for the current code** (known finding
+`C16/numbering-independence/automorphism-filter`; witness `Findings.C16.automorphism_filter_choice_matters`):
+two matches with the same image (which the default `automorphism_filter=True` treats as one, keeping whichever is
+enumerated first) lead to the same product. -/
+def SameImageSameProduct : Prop :=
+  ∀ (s : Mol) (t : Template) (ma mb : List (Nat × Nat)) (pa pb : Patched),
+    (∀ v, v ∈ ma.map (·.2) ↔ v ∈ mb.map (·.2)) →
+    patcher s t (toDeleteOf t) ma = .ok pa → patcher s t (toDeleteOf t) mb = .ok pb →
+    ∀ a c, pa.mol.bond? a c = pb.mol.bond? a c
+
+/-- the part that holds (`_partial`; excluded class: the matcher dropping matches by image): when the matcher's list of
+matches is only *reordered* (what renumbering the reactant does to an unfiltered enumeration), the products are the same
+up to order — the product multiset is a function of the multiset of matches. -/
+theorem product_set_independent_of_match_order_partial {s : Mol} {t : Template} {td : List Nat}
+    {l1 l2 : List (List (Nat × Nat))} (hp : l1.Perm l2) :
+    ∀ r1, transformerCall s t td l1 = .ok r1 → ∃ r2, transformerCall s t td l2 = .ok r2 ∧ r1.Perm r2 := by
+  induction hp with
+  | nil => intro r1 h; exact ⟨r1, h, List.Perm.refl _⟩
+  | cons x _ ih =>
+    intro r1 h
+    obtain ⟨p, ps, hp', hps, rfl⟩ := transformerCall_cons.1 h
+    obtain ⟨r2, h2, hperm⟩ := ih ps hps
+    exact ⟨p :: r2, transformerCall_cons.2 ⟨p, r2, hp', h2, rfl⟩, List.Perm.cons p hperm⟩
+  | swap x y l =>
+    intro r1 h
+    obtain ⟨py, ps, hy, hps, rfl⟩ := transformerCall_cons.1 h
+    obtain ⟨px, ps', hx, hps', rfl⟩ := transformerCall_cons.1 hps
+    exact ⟨px :: py :: ps', transformerCall_cons.2 ⟨px, _, hx, transformerCall_cons.2 ⟨py, ps', hy, hps', rfl⟩, rfl⟩,
+      List.Perm.swap px py ps'⟩
+  | trans _ _ ih1 ih2 =>
+    intro r1 h
+    obtain ⟨r2, h2, p12⟩ := ih1 r1 h
+    obtain ⟨r3, h3, p23⟩ := ih2 r2 h2
+    exact ⟨r3, h3, p12.trans p23⟩
+
 /-- the executable well-formedness test the driver applies to every structure (`Mol.WF`: unique keys, adjacency keyed by
 the atoms, symmetric with the same bond on both sides, no loops) implies the hypotheses of the frame theorems, and the
 adjacency `_get_deleted` reads is then undirected -/
